@@ -2041,6 +2041,52 @@ fn check_defaulted_field(krate: Krate, code: u16) -> Outcome {
     Outcome::Pass
 }
 
+// ---------------- garde path components without a key -----------------------------------------------
+#[derive(Deserialize, garde::Validate, Debug)]
+struct KlRoot {
+    #[garde(inner(length(min = 2)))]
+    o: Option<String>,
+    #[garde(inner(inner(length(min = 2))))]
+    ov: Option<Vec<String>>,
+    #[garde(inner(inner(length(min = 2))))]
+    vo: Vec<Option<String>>,
+}
+/// garde describes "the value inside an Option" by a path component without a key (the field of a
+/// 1-tuple struct is index 0 for it, and stays unlocated: an observed limitation): the issue is located at the value all the same, and the path that is
+/// printed has no empty segment.
+fn check_keyless(code: u16) -> Outcome {
+    let field = (code % 3) as usize;
+    let lead = ((code / 3) % 3) as usize;
+    let reader = (code / 9) % 2 == 1;
+    let mut text = String::new();
+    for i in 0..lead {
+        text.push_str(&format!("# lead {i}\n"));
+    }
+    let bad = |i: usize| if i == field { "x" } else { "okay" };
+    text.push_str(&format!("o: {}\n", bad(0)));
+    text.push_str(&format!("ov: [okay, {}]\n", bad(1)));
+    text.push_str(&format!("vo: [okay, {}]\n", bad(2)));
+    let want = match field {
+        0 => (lead as u64 + 1, 4u64),
+        1 => (lead as u64 + 2, 12),
+        _ => (lead as u64 + 3, 12),
+    };
+    let err = if reader { serde_saphyr::from_reader_valid::<_, KlRoot>(std::io::Cursor::new(text.as_bytes())).err() } else { serde_saphyr::from_str_valid::<KlRoot>(&text).err() };
+    let Some(e) = err else {
+        return Outcome::Fail(format!("a violated field is accepted (keyless components, text {text:?})"));
+    };
+    let plain = e.without_snippet().to_string();
+    let first = plain.lines().next().unwrap_or("").to_string();
+    let got = e.without_snippet().location().map(|l| (l.line(), l.column()));
+    if got != Some(want) {
+        return Outcome::Fail(format!("garde path with a keyless component (reader {reader}): the issue is located at {got:?}, the violated value is at {want:?}; message {first:?} (text {text:?})"));
+    }
+    if first.contains(".:") || first.contains(". ") || first.contains(".[") || first.contains(".`") {
+        return Outcome::Fail(format!("garde path with a keyless component: the printed path has an empty segment: {first:?} (text {text:?})"));
+    }
+    Outcome::Pass
+}
+
 /// `n` copies of one small document, produced on the fly
 struct Repeat {
     unit: &'static [u8],
@@ -2129,7 +2175,7 @@ impl Property for C18 {
     const ID: &'static str = "C18";
     type Case = Case;
     fn rule() -> String {
-        "cases = (validation crate, entry point, options for the *_with_options_* entry points, layout, 1 document or a stream of 1-4 documents); a document is a description of a value of the fixed type family Root{camelCase: shortName, maxCount, type (raw identifier), abC, aBc, netCfg: Net{kebab-case: host-name, port-no, back-ups: [Item]}, items: [Item], byName: BTreeMap<String, Item>}, Item{label, weight, tags: [String]} giving for every leaf its value (satisfying or violating its length/range constraint) and how it is supplied (directly, directly with an anchor, alias to a scalar anchored in a pool, through `<<: *base`, overriding a merged value, through a merge whose base entry is an alias, through a merged mapping written in place - as a scalar, as an alias inside it, or inside a container that it supplies), whether an Item is used through an alias to a whole anchored mapping, block/flow style per container, comments with multi-byte text, CRLF, indentation, document markers. The harness renders the YAML and records the line/column of every value token. Oracle: see report-C18.md (result == plain entry point when nothing is violated; otherwise the reported path set == violated constraints evaluated on the plain value, use site and definition site of every issue == ground truth, observed through a recording Localizer in plain and snippet rendering and through Error::location()/locations(); every failing document of a stream is reported). Non-trivial: >= 1 violated constraint reached through an alias, a merge, a renamed field (or below one) or a sequence index. distinct = distinct case descriptions. Sub-check defaulted-field: a violated field filled by its serde default (nesting depth 1-3) is named by the plain and by the miette rendering. Sub-check long-stream: 260 MiB of small valid documents through read and through the validating iterator of each crate give the same items (no input-size cap in either).".into()
+        "cases = (validation crate, entry point, options for the *_with_options_* entry points, layout, 1 document or a stream of 1-4 documents); a document is a description of a value of the fixed type family Root{camelCase: shortName, maxCount, type (raw identifier), abC, aBc, netCfg: Net{kebab-case: host-name, port-no, back-ups: [Item]}, items: [Item], byName: BTreeMap<String, Item>}, Item{label, weight, tags: [String]} giving for every leaf its value (satisfying or violating its length/range constraint) and how it is supplied (directly, directly with an anchor, alias to a scalar anchored in a pool, through `<<: *base`, overriding a merged value, through a merge whose base entry is an alias, through a merged mapping written in place - as a scalar, as an alias inside it, or inside a container that it supplies), whether an Item is used through an alias to a whole anchored mapping, block/flow style per container, comments with multi-byte text, CRLF, indentation, document markers. The harness renders the YAML and records the line/column of every value token. Oracle: see report-C18.md (result == plain entry point when nothing is violated; otherwise the reported path set == violated constraints evaluated on the plain value, use site and definition site of every issue == ground truth, observed through a recording Localizer in plain and snippet rendering and through Error::location()/locations(); every failing document of a stream is reported). Non-trivial: >= 1 violated constraint reached through an alias, a merge, a renamed field (or below one) or a sequence index. distinct = distinct case descriptions. Sub-check defaulted-field: a violated field filled by its serde default (nesting depth 1-3) is named by the plain and by the miette rendering. Sub-check keyless-components: garde issues whose path has a component without a key (inside an Option) are located at the value and printed without an empty segment. Sub-check long-stream: 260 MiB of small valid documents through read and through the validating iterator of each crate give the same items (no input-size cap in either).".into()
     }
     fn assumptions() -> Vec<String> {
         vec![
@@ -2144,6 +2190,9 @@ impl Property for C18 {
     fn check(c: &Case) -> Outcome {
         if c.long_mib > 0 {
             return check_long_stream(c.krate, c.long_mib);
+        }
+        if c.root_seq > 200 {
+            return check_keyless(c.root_seq - 201);
         }
         if c.root_seq > 100 {
             return check_defaulted_field(c.krate, c.root_seq - 101);
@@ -2232,6 +2281,14 @@ impl Property for C18 {
             }
         }
         ctx.subspace("violated field filled by its serde default / written x nesting depth 1-3 x 0-2 leading lines x 2 crates, plain and miette rendering", 36, true);
+        // --- garde path components without a key (inside an Option)
+        for code in 0..18u16 {
+            if ctx.mine(13 + code as u64) {
+                let c = Case { krate: Krate::Garde, ep: Ep::Str, opt: OptV::Default, layout: base_layout(), docs: vec![], strict: true, long_mib: 0, root_seq: 201 + code };
+                ctx.case("keyless-components", &c, true);
+            }
+        }
+        ctx.subspace("garde inner rules on Option / Option<Vec> / Vec<Option> x 0-2 leading lines x str / reader", 18, true);
         let classes: RefCell<BTreeMap<String, u64>> = RefCell::new(BTreeMap::new());
         // --- enumerated: one violated leaf of a fixed document x supply x entry point x crate x style
         let base = base_doc();
